@@ -56,6 +56,34 @@ func pointDominates(b1 *ssa.BasicBlock, i1 int, b2 *ssa.BasicBlock, i2 int) bool
 func (f *Frame) lookupVar(name string, b *ssa.BasicBlock, idx int, st *State) (*V, bool) {
 	var best *varRef
 	refs := f.varRefs[name]
+	if name == "rangeindex" && b != nil {
+		// the index of the innermost range loop that contains the point (an inner loop that has already
+		// finished also dominates the point, but its index is not what the clause means)
+		var in *loopInfo
+		for _, li := range f.loops {
+			if !li.blocks[b] {
+				continue
+			}
+			has := false
+			for _, ins := range li.header.Instrs {
+				if ph, ok := ins.(*ssa.Phi); ok && ph.Comment == "rangeindex" {
+					has = true
+				}
+			}
+			if has && (in == nil || len(li.blocks) < len(in.blocks)) {
+				in = li
+			}
+		}
+		if in != nil {
+			for _, ins := range in.header.Instrs {
+				if ph, ok := ins.(*ssa.Phi); ok && ph.Comment == "rangeindex" {
+					if _, ok := f.vals[ph]; ok {
+						return f.val(ph), true
+					}
+				}
+			}
+		}
+	}
 	for k := range refs {
 		r := &refs[k]
 		if !pointDominates(r.block, r.idx, b, idx) {
